@@ -54,6 +54,8 @@ pub fn run_case(toks: &[&str], em: &mut Emitter) {
                     for _ in 0..k { r = s.client.read(|e| if let RdpEvent::Bitmap(b) = e { evs.push(show_ev(&b)) }).map_err(|_| ()); if r.is_err() { break; } }
                     r
                 }
+                // from now on the transport hands out at most k bytes per read (0: whatever is asked for)
+                'C' => { s.pipe.0.borrow_mut().rcap = op[1..].parse().unwrap(); Ok(()) }
                 'T' => s.client.try_write(parse_event(&op[1..]).unwrap()).map_err(|_| ()),
                 _ => s.client.write(parse_event(op).unwrap()).map_err(|_| ()),
             };
@@ -86,6 +88,9 @@ fn caps_sample(r: &mut Rng) -> Vec<Vec<u8>> {
     if r.chance(1, 2) { v.push(refsrv::cap(0x14, &[0, 0, 0, 0, 0x40, 6, 0, 0])); }
     if r.chance(1, 2) { v.push(refsrv::cap(0x1a, &[0, 0, 1, 0])); }
     if r.chance(1, 4) { v.push(refsrv::cap(0x77, &[])); }
+    // input capability with and without INPUT_FLAG_SCANCODES (what the server supports does not change what
+    // the client must transmit), full-size and cut short
+    if r.chance(1, 2) { let fl = *r.pick(&[0x0034u16, 0, 0x0375, 0x0001, 0x0020]); let mut b = refsrv::le16(fl); b.extend(vec![0u8; if r.chance(1, 5) { 6 } else { 86 }]); v.push(refsrv::cap(0x0d, &b)); }
     v
 }
 
@@ -242,6 +247,8 @@ pub fn generate_c10(thorough: bool, seed: u64, _part: (usize, usize), em: &mut E
     for _ in 0..n {
         let mut g = Gen { r: &mut r, share: 0x000103ea };
         let mut ops = vec![]; let mut hist0 = vec![]; activate(&mut g, &mut ops, &mut hist0);
+        // a transport that delivers the PDUs in small pieces (1..7 bytes, or MTU-sized) from here on
+        if g.r.chance(1, 4) { ops.push(format!("C{}", g.r.pick(&[1u32, 2, 3, 7, 100, 1460]))); hist0.push("CH".into()); }
         let npdu = g.r.range(1, 4);
         for _ in 0..npdu {
             let nupd = g.r.below(5);
